@@ -32,3 +32,50 @@ Example hypotheses_met_compact : ex_ok ICompact = true.
 Proof. vm_compute. reflexivity. Qed.
 Example ex_ids_distinct : NoDup (map d_id ex_docs).
 Proof. repeat constructor; simpl; intuition discriminate. Qed.
+
+(* ---- fields in the pattern and range containers (IndexCorrectHolders.index_correct_holders) ---- *)
+From BE Require Import Proofs.HoldersBuildInv Proofs.IndexCorrectHolders.
+Definition sv (s : list N) : gval := VStr s.
+Definition ex2_cfg : list (fname * cont_kind) := [(1%N, CAc); (2%N, CRange)].
+(* doc 10: kw has "ab" or "c d", and r > 100 (kept interval);  doc -11: kw lacks "b", r between [3,9) (expanded);
+   doc 12: f0 in {7} and r in {5, 500} *)
+Definition ex2_docs : list doc :=
+  [ {| d_id := 10;  d_conjs := [ [(1%N, [{| e_incl := true; e_op := OpEQ; e_val := VSlice TSstring false [sv [97;98]; sv [99;32;100]]%N |}]);
+                                   (2%N, [{| e_incl := true; e_op := OpGT; e_val := VInt KI64 100 |}])] ] |};
+    {| d_id := -11; d_conjs := [ [(1%N, [{| e_incl := false; e_op := OpEQ; e_val := sv [98]%N |}]);
+                                   (2%N, [{| e_incl := true; e_op := OpBetween; e_val := VSlice TSint64 false [VInt KI64 3; VInt KI64 9] |}])] ] |};
+    {| d_id := 12;  d_conjs := [ [(0%N, [ein true [7]]);
+                                   (2%N, [{| e_incl := true; e_op := OpEQ; e_val := VSlice TSint false [iv 5; iv 500] |}])] ] |} ].
+Definition ex2_q : assignment := [(0%N, iv 7); (1%N, VSlice TSstring false [sv [120;97]; sv [98;99]]%N); (2%N, iv 500)].
+  (* text "xa bc": contains "b", not "ab" nor "c d" *)
+Definition ex2_q' : assignment := [(1%N, sv [120;97;98;120]%N); (2%N, iv 500)].   (* "xabx", r = 500 *)
+
+Definition ex2_ok (k : index_kind) : bool :=
+  match config_fields (new_builder k PolError 256 ex_parsers) ex2_cfg with
+  | None => false
+  | Some st0 =>
+    let '(st, os) := add_documents false st0 ex2_docs in
+    forallb (fun o => match o with AddOk => true | _ => false end) os &&
+    forallb (fun d => forallb (conj_ok' ex_parsers (cfg_of ex2_cfg)) (d_conjs d)) ex2_docs &&
+    forallb (fun fv => qv_ok (cfg_of ex2_cfg (fst fv)) (ex_parsers (fst fv)) (snd fv)) (ex2_q ++ ex2_q') &&
+    match retrieve (build_index st) ex2_q, retrieve (build_index st) ex2_q' with
+    | ROk [12], ROk [10] => true
+    | _, _ => false end
+  end.
+Example holders_hypotheses_met_kgroups : ex2_ok IKGroups = true.
+Proof. vm_compute. reflexivity. Qed.
+Example holders_hypotheses_met_compact : ex2_ok ICompact = true.
+Proof. vm_compute. reflexivity. Qed.
+Example ex2_ranges_inside_int64 : forall d cj, In d ex2_docs -> In cj (d_conjs d) -> conj_rwf 256 (cfg_of ex2_cfg) cj.
+Proof.
+  intros d cj Hd Hcj f es e Hf He. apply erwf_bounds. intros l r Hp.
+  unfold ex2_docs in Hd. cbn [In] in Hd.
+  repeat match goal with
+  | H : _ \/ _ |- _ => destruct H as [H|H]
+  | H : False |- _ => contradiction
+  | H : _ = d |- _ => subst d; cbn [d_conjs In] in Hcj
+  | H : _ = cj |- _ => subst cj; cbn [In] in Hf
+  | H : _ = (f, es) |- _ => inversion H; subst f es; clear H; cbn [In] in He
+  | H : _ = e |- _ => subst e; vm_compute in Hp; try discriminate Hp; inversion Hp; subst l r; vm_compute; intuition discriminate
+  end.
+Qed.
